@@ -104,3 +104,12 @@ package state_machines
 //@ nocall[C08.clock] fsm/fsm fsm/fsm_pool fsm/state_machines fsm/state_machines/internal fsm/state_machines/dkg_proposal_fsm
 //@   fsm/state_machines/signature_proposal_fsm fsm/state_machines/signing_proposal_fsm fsm/types/requests
 //@   client/services/fsmservice : time.Now time.Since time.Until math/rand. crypto/rand. uuid.New uuid.NewString os.Getenv os.Hostname
+
+// what is saved for a round is serialised from the round's current dump when it is asked for: the bytes are made in
+// this very call (nothing serialised earlier is handed out again after the dump was changed through FSMDump())
+//@ func (*FSMInstance).Dump
+//@   nosafety
+//@   safety C19
+//@   requires i != nil
+//@   pure
+//@   ensures[C19.dump.current] result1 == nil ==> fresh(result0)
